@@ -864,6 +864,40 @@ def run_mem_key(ctx, sec, key, group, rng, routes_full=True):
                 check_access(ctx, sd, sec, key, rng, cur, rname)
                 run_text_roundtrip(ctx, cfg, sec, key, typ, cur, rname)
                 check_idempotent(ctx, sd, sec, key, typ, cur, rname)
+        # ---- the client keeps using the object it assigned: the stored entry is the
+        # converted value, it must not follow later in-place changes of the client's array
+        kept = fac()
+        if not unknown_section and out.kind == "ok" and typ == "f2dfloatarray" \
+                and isinstance(kept, np.ndarray) and kept.size and kept.dtype.kind in "fiu" \
+                and kept.flags.writeable:
+            for how in ("assign", "update", "ctor"):
+                _State.route = "kept_" + how
+                if how == "assign":
+                    cfg2 = fresh_cfg()
+                    c2 = attempt(lambda: cfg2[sec].__setitem__(skey, kept))
+                elif how == "update":
+                    cfg2 = fresh_cfg()
+                    c2 = attempt(lambda: cfg2.update({sec: {skey: kept}}))
+                else:
+                    c2 = attempt(lambda: dconfig.Configuration(cfg={sec: {skey: kept}}))
+                    cfg2 = c2.result
+                if c2.exc is not None:
+                    continue
+                before = lookup(get_section(cfg2, sec), key)
+                if before is _MISSING:
+                    continue
+                before = np.array(before, copy=True)
+                saved = kept.copy()
+                kept[...] = kept * 2 + 1
+                after = lookup(get_section(cfg2, sec), key)
+                ctx.check("stored_value_independent_of_client_object",
+                          after is not _MISSING and mt.values_equal(after, before),
+                          lambda: {"section": sec, "key": show(key), "route": how,
+                                   "representation": rname, "stored_before": show(before),
+                                   "stored_after_client_changed_its_array": show(after)},
+                          message=f"[{sec}] {key!r}: the stored value changed when the client "
+                                  f"modified the array it had assigned ({how})")
+                kept[...] = saved
         # ---- route: section.update / Configuration.update / constructors
         if not unknown_section:
             cfg = fresh_cfg()
